@@ -113,7 +113,8 @@ impl Clone for Tok {
             l.cloned += 1;
             fresh_id(&mut l)
         });
-        Tok { id, val: self.val.clone(), _pad: 0 }
+        // a clone is marked with a prime, so that cloned elements are visible in observations
+        Tok { id, val: format!("{}'", self.val), _pad: 0 }
     }
 }
 
@@ -190,6 +191,8 @@ impl std::ops::Neg for Tok {
 /// what the history interpreter needs from an element type
 pub trait Elem: Sized + 'static {
     const ZST: bool;
+    /// does `Clone::clone` mark the payload (so that clones are visible)?
+    const MARKS_CLONES: bool = false;
     const KIND: &'static str;
     fn make(payload: String) -> Self;
     fn show(&self) -> String;
@@ -198,6 +201,7 @@ pub trait Elem: Sized + 'static {
 
 impl Elem for Tok {
     const ZST: bool = false;
+    const MARKS_CLONES: bool = true;
     const KIND: &'static str = "tok";
     fn make(payload: String) -> Self {
         Tok::new(payload)
@@ -245,4 +249,27 @@ impl Elem for [u64; 3] {
         self[0].to_string()
     }
     fn dflt() -> Self { [0, !0, 0x5555] }
+}
+
+/// an element with a non-trivial `Clone` but *no* drop glue (`needs_drop` is false): a clone is
+/// one generation older than its original
+#[derive(Debug, PartialEq)]
+pub struct Cm {
+    pub v: u32,
+    pub generation: u32,
+}
+
+impl Clone for Cm {
+    fn clone(&self) -> Cm {
+        Cm { v: self.v, generation: self.generation + 1 }
+    }
+}
+
+impl Elem for Cm {
+    const ZST: bool = false;
+    const MARKS_CLONES: bool = true;
+    const KIND: &'static str = "cm";
+    fn make(p: String) -> Self { Cm { v: p.parse::<u64>().unwrap() as u32, generation: 0 } }
+    fn show(&self) -> String { format!("{}{}", self.v, "'".repeat(self.generation as usize)) }
+    fn dflt() -> Self { Cm { v: 0, generation: 0 } }
 }
